@@ -30,14 +30,29 @@ func genCase(t *rapid.T) Case {
 	c.Ctx.Rounding = ""
 	if c.Op == "round" {
 		// second operand for monotonicity: a neighbour of x or an independent value
-		if gen.Pick(t, 2, "near") == 0 {
+		switch k := gen.Pick(t, 3, "near"); {
+		case k == 2:
+			// the same value (or a neighbour) in another representation: zeros moved between
+			// coefficient and exponent, so the two roundings discard different digit counts
+			j := rapid.IntRange(1, 200).Draw(t, "pad")
+			v := c.X.Big()
+			v.Mul(v, ref.Pow10(int64(j)))
+			v.Add(v, big.NewInt(int64(rapid.IntRange(-1, 1).Draw(t, "dy"))))
+			if v.Sign() < 0 {
+				v.SetInt64(0)
+			}
+			c.Y = core.Dec{Coeff: v.String(), Exp: c.X.Exp - int32(j), Neg: c.X.Neg}
+			if gen.Pick(t, 2, "swapxy") == 0 {
+				c.X, c.Y = c.Y, c.X
+			}
+		case k == 0:
 			v := c.X.Big()
 			v.Add(v, big.NewInt(int64(rapid.IntRange(-3, 3).Draw(t, "dy"))))
 			if v.Sign() < 0 {
 				v.SetInt64(0)
 			}
 			c.Y = core.Dec{Coeff: v.String(), Exp: c.X.Exp, Neg: c.X.Neg}
-		} else {
+		default:
 			c.Y = gen.Finite(t, c.Ctx, "y")
 		}
 	}
@@ -303,7 +318,12 @@ func relations(c Case, m string, r0 run, st *core.Stats) error {
 		r := exec(ry, m)
 		if r0.err == nil && r.err == nil && r0.d.Form != apd.NaN && r.d.Form != apd.NaN {
 			x, y := ac.X.Apd(), ac.Y.Apd()
-			if o := cmp(x, y); o != 0 {
+			if o := cmp(x, y); o == 0 {
+				st.Class("equal-value-pair")
+				if cmp(r0.d, r.d) != 0 {
+					return fmt.Errorf("%v [%s]: equal values round differently: x=%v -> %s, y=%v -> %s", c.Case, m, ac.X, show(r0), ac.Y, show(r))
+				}
+			} else {
 				st.Class("monotone-pair")
 				if o*cmp(r0.d, r.d) < 0 {
 					return fmt.Errorf("%v [%s]: Round not monotone: x=%v -> %s, y=%v -> %s", c.Case, m, ac.X, show(r0), ac.Y, show(r))
